@@ -154,6 +154,9 @@ func (e *SpecEnv) Eval(x ast.Expr) Value {
 		base := e.Eval(n.X)
 		if sv, ok := base.(*StructV); ok {
 			st := e.st
+			if e.inOld && e.oldSt != nil {
+				st = e.oldSt
+			}
 			return e.c.field(st, sv, n.Sel.Name)
 		}
 		panic(verr("spec: selector on %T: %s", base, exprString(n)))
